@@ -60,9 +60,10 @@ class Reverter(object):
         else:
             setattr(self.version_parent, prop.key, None)
             value = getattr(self.obj, prop.key)
-            value = self.revert_child(
-                value, prop
-            )
+            if value is not None:
+                value = self.revert_child(
+                    value, prop
+                )
             if value:
                 setattr(self.version_parent, prop.key, value)
 
@@ -81,7 +82,9 @@ class Reverter(object):
                     if value not in values:
                         self.session.delete(value)
             else:
-                self.revert_child(getattr(self.obj, prop.key), prop)
+                child_obj = getattr(self.obj, prop.key)
+                if child_obj is not None:
+                    self.revert_child(child_obj, prop)
 
     def revert_child(self, child, prop):
         return self.__class__(
